@@ -226,7 +226,8 @@ func (k *checker) runValues(base int) bool {
 }
 
 // layoutAgreement re-reads a text in the other line layouts a valid OBJ file comes in — without the
-// final newline, with CRLF line endings, both — and demands the meshes of the plain reading.
+// final newline, with CRLF line endings, both, with every line indented by blanks or a tab and with
+// trailing blanks — and demands the meshes of the plain reading.
 func layoutAgreement(text string, ref []obj.ObjMesh) (why, layout string) {
 	digest := func(ms []obj.ObjMesh) string {
 		var sb strings.Builder
@@ -241,6 +242,8 @@ func layoutAgreement(text string, ref []obj.ObjMesh) (why, layout string) {
 		{"no-final-newline", strings.TrimSuffix(text, "\n")},
 		{"crlf", crlf},
 		{"crlf-no-final-newline", strings.TrimSuffix(crlf, "\r\n")},
+		{"indented-with-blanks", "  " + strings.ReplaceAll(strings.TrimSuffix(text, "\n"), "\n", "\n  ") + "\n"},
+		{"indented-with-tabs-and-trailing-blanks", "\t" + strings.ReplaceAll(strings.TrimSuffix(text, "\n"), "\n", " \n\t") + " \n"},
 	} {
 		var got []obj.ObjMesh
 		var err error
